@@ -151,13 +151,15 @@ class Exec(ExecBase):
                 return VBool(self.list_len(v, st).term > 0)
             raise Unsupported("truth of bag list")
         if isinstance(v, VDict):
-            raise Unsupported("truth of dict")
+            e = z3.K(sort_of(v.key), z3.BoolVal(False))
+            return VBool(self.dict_dom(v, st) != e)
         return v.truthy()
 
     # ---------------------------------------------------------------------------------------------
     # expressions
     # ---------------------------------------------------------------------------------------------
     def ev(self, node: ast.AST, st: State) -> Iterator[Tuple[V, State]]:
+        self.cur_line = getattr(node, "lineno", getattr(self, "cur_line", 0))
         m = getattr(self, "ev_" + type(node).__name__, None)
         if m is None:
             raise Unsupported(f"expression {type(node).__name__} at {self.fi.file}:{getattr(node, 'lineno', '?')}")
@@ -212,14 +214,13 @@ class Exec(ExecBase):
         for ks, st1 in self.ev_list(node.keys, st):
             for vs, st2 in self.ev_list(node.values, st1):
                 if not ks:
-                    raise Unsupported("empty dict literal (element sorts unknown)")
+                    d, st3 = self.new_dict(T.Int, T.Int, st2)
+                    d.untyped = True      # key/value types fixed by the declared type of the target or the first store
+                    yield d, st3
+                    continue
                 kt, vt = self.elem_type_of_values(ks), self.elem_type_of_values(vs)
-                term = z3.K(sort_of(kt), to_term(vs[0], vt))
-                dom = z3.K(sort_of(kt), z3.BoolVal(False))
-                for k, v in zip(ks, vs):
-                    term = z3.Store(term, to_term(k, kt), to_term(v, vt))
-                    dom = z3.Store(dom, to_term(k, kt), z3.BoolVal(True))
-                yield VDict(kt, vt, term, dom), st2
+                d, st3 = self.new_dict(kt, vt, st2, list(zip(ks, vs)))
+                yield d, st3
 
     def ev_Set(self, node: ast.Set, st: State) -> Iterator[Tuple[V, State]]:
         for vs, st1 in self.ev_list(node.elts, st):
@@ -430,6 +431,20 @@ class Exec(ExecBase):
 
     def subscript(self, base: V, idx: V, st: State, node: ast.AST) -> Iterator[Tuple[V, State]]:
         where = f"{self.fi.file}:{getattr(node, 'lineno', '?')}"
+        if isinstance(base, VUnion):
+            base = self.narrow(base, st)
+        if isinstance(base, VUnion):
+            for g, alt in base.alts:
+                if not self.feasible_with(st, g):
+                    continue
+                st_g = st.assume(g)
+                if isinstance(alt, VNone):
+                    self.oblige(st_g, "safe", f"subscript-of-None@{node.lineno}", z3.BoolVal(False), where=where, tags=["C17"])
+                    continue
+                yield from self.subscript(alt, idx, st_g, node)
+            return
+        if isinstance(idx, VUnion):
+            idx = self.narrow(idx, st)
         if isinstance(base, VTuple):
             i = self.concrete(idx)
             yield base.items[i], st
@@ -462,18 +477,30 @@ class Exec(ExecBase):
         if isinstance(base, VDict):
             idx = self.narrow(idx, st)
             kt = to_term(idx, base.key)
-            self.oblige(st, "safe", f"key@{node.lineno}", z3.Select(base.dom, kt), where=where, tags=["C17"])
-            st = st.assume(z3.Select(base.dom, kt))
-            v = from_term(z3.Select(base.term, kt), base.val, self)
-            if isinstance(v, (VRef, VEnum, VUnion)):
-                st = st.assume(self.type_constraint(v))
-            yield v, st
+            present = z3.Select(self.dict_dom(base, st), kt)
+            if base.default:
+                # defaultdict(dict): a missing key is created with a fresh empty dict
+                for val, st_b in self.branch(VBool(present), st, f"dd{node.lineno}"):
+                    if val:
+                        yield self.dict_read(base, idx, st_b)
+                    else:
+                        vt = base.val
+                        inner, st_c = self.new_dict(vt.key, vt.val, st_b, default=getattr(vt, "default", False))
+                        st_c = self.dict_write(base, idx, inner, st_c)
+                        yield inner, st_c
+                return
+            self.oblige(st, "safe", f"key@{node.lineno}", present, where=where, tags=["C17"])
+            st = st.assume(present)
+            yield self.dict_read(base, idx, st)
             return
         raise Unsupported(f"subscript on {base!r} at {where}")
 
     def dict_to_vdict(self, d: dict, st: State) -> Tuple[VDict, State]:
-        """A module-level dict read with a symbolic key: value map + domain (keys/values must be homogeneous constants)."""
+        """A module-level dict read with a symbolic key: a dict object at a constant (negative) address whose contents at
+        function entry are the import-time contents (keys/values must be homogeneous constants)."""
         from .execbase import CLS_LO, CLS_HI
+        from .state import State as _S
+        oid = id(d)
         ks, vs = [], []
         for k, v in d.items():
             kv, st = self.lift(k, st)
@@ -487,12 +514,23 @@ class Exec(ExecBase):
                                     CLS_HI(z3.IntVal(self.ct.lo[v.pycls])) == self.ct.hi[v.pycls]) for v in vs])
         else:
             vt = self.elem_type_of_values(vs)
-        term = z3.K(sort_of(kt), to_term(vs[0], vt))
-        dom = z3.K(sort_of(kt), z3.BoolVal(False))
-        for k, v in zip(ks, vs):
-            term = z3.Store(term, to_term(k, kt), to_term(v, vt))
-            dom = z3.Store(dom, to_term(k, kt), z3.BoolVal(True))
-        return VDict(kt, vt, term, dom), st
+        if oid not in self._const_refs:
+            self._const_refs[oid] = -(1000 + len(self._const_refs))
+            self._const_objs[oid] = d
+        ref = z3.IntVal(self._const_refs[oid])
+        dv = VDict(kt, vt, ref)
+        if oid not in st.lifted:
+            st = st.copy()
+            st.lifted = st.lifted + (oid,)
+            dom0 = z3.Select(_S().harr(f"D.dom:{sort_of(kt)}", z3.IntSort(), z3.ArraySort(sort_of(kt), z3.BoolSort())), ref)
+            map0 = z3.Select(_S().harr(f"D.map:{sort_of(kt)}->{sort_of(vt)}", z3.IntSort(), z3.ArraySort(sort_of(kt), sort_of(vt))), ref)
+            want = z3.K(sort_of(kt), z3.BoolVal(False))
+            for k in ks:
+                want = z3.Store(want, to_term(k, kt), z3.BoolVal(True))
+            st.pc.append(dom0 == want)
+            for k, v in zip(ks, vs):
+                st.pc.append(z3.Select(map0, to_term(k, kt)) == to_term(v, vt))
+        return dv, st
 
     def slice_v(self, base: V, sl: ast.Slice, st: State, node: ast.AST) -> Iterator[Tuple[V, State]]:
         if isinstance(base, VTuple):
@@ -588,6 +626,11 @@ class Exec(ExecBase):
                     raise Unsupported(f"virtual property {obj.cls.__name__}.{name} (overridden in {len(ovs)} subclasses) "
                                       f"has no abstraction")
                 fi = funcinfo_of(raw.fget, k)
+                pc_ = self.registry.get(fi.qualname)
+                if pc_ is not None and fi.qualname != self.fi.qualname:
+                    # a property getter under contract: the caller sees the contract only
+                    yield from self.apply_contract(pc_, fi, [obj], {}, st, ast.Pass(lineno=getattr(self, "cur_line", 0)))
+                    return
                 yield from self.inline(fi, [obj], {}, st)
                 return
             if inspect.isfunction(raw):
@@ -598,6 +641,13 @@ class Exec(ExecBase):
                 return
             if isinstance(raw, staticmethod):
                 yield VFunc("repo", fi=funcinfo_of(raw.__func__, k), self_val=None, pyobj=raw.__func__), st
+                return
+            # a class-level default that __init__ (conditionally) shadows with an instance attribute: one heap field
+            # models both (its value is unconstrained, which covers the default too)
+            attrs0 = init_assigned_attrs(obj.cls)
+            if name in attrs0 and is_tealer_class(k):
+                v, st2 = self.read_field(obj, attrs0[name], name, st)
+                yield v, st2
                 return
             # class-level constant
             if not is_tealer_class(k):
@@ -948,6 +998,24 @@ class Exec(ExecBase):
             self.oblige(st, "call-pre", f"{fi.pyfunc.__name__ if fi.pyfunc else fi.qualname}.{cl.label}@{getattr(node, 'lineno', 0)}",
                         _b(g), tags=cl.tags or c.tags, where=where)
             st = st.assume(_b(g))
+        # exceptions of the callee: allowed if the function under verification may raise them too; otherwise the callee's
+        # raise condition must be excluded here (an unconditional raises clause can never be excluded)
+        mine = {rn for rn, _ in self.contract.raises}
+        for rn, rfn in c.raises:
+            if rn in mine:
+                continue
+            if rfn is None:
+                # unconditional clause: partial correctness only (the caller's clauses speak about normal returns; the
+                # exception propagates) -- listed under the assumptions of the evidence
+                self.partial_raises.append((c.target, rn))
+                continue
+            else:
+                from .dsl import Clause
+                g, st = self.eval_clause(Clause(f"raises-{rn}", rfn), ns, st)
+                goal = z3.Not(_b(g))
+            self.oblige(st, "call-pre", f"{fi.pyfunc.__name__ if fi.pyfunc else fi.qualname}.no-{rn}@{getattr(node, 'lineno', 0)}",
+                        goal, tags=list(set(["C17"] + c.tags)), where=where)
+            st = st.assume(goal)
         # havoc modifies
         st = self.havoc_modifies(c, ns, st)
         rty = c.returns
@@ -1053,8 +1121,32 @@ class Exec(ExecBase):
             name = e.id if isinstance(e, ast.Name) else getattr(e, "attr", "Exception")
         yield "raise", (name, s.lineno), st
 
+    def retype_empty(self, v: V, name: str, annotation: Optional[ast.AST], st: State) -> V:
+        """an empty list/dict literal takes the element types declared for the variable (contract `local_types`, else the
+        annotation in the source)"""
+        if not isinstance(v, (VList, VDict)) or not getattr(v, "untyped", False):
+            return v
+        ty = None
+        if st.fi is self.fi:
+            ty = getattr(self.contract, "local_types", {}).get(name)
+        if ty is None and annotation is not None:
+            ty = ty_from_ast(annotation, st.fi.globals)
+        if ty is None:
+            return v
+        if isinstance(v, VDict) and ty.kind == "dict":
+            v.key, v.val, v.default = ty.key, ty.val, getattr(ty, "default", False)
+            v.ty = ty
+            v.untyped = False
+        elif isinstance(v, VList) and ty.kind == "list":
+            v.elem, v.view = ty.elem, ty.view
+            v.ty = ty
+            v.untyped = False
+        return v
+
     def st_Assign(self, s: ast.Assign, st: State) -> Iterator[Out]:
         for v, st1 in self.ev(s.value, st):
+            if len(s.targets) == 1 and isinstance(s.targets[0], ast.Name):
+                v = self.retype_empty(v, s.targets[0].id, None, st1)
             st2 = st1
             for t in s.targets:
                 st2 = self.assign_target(t, v, st2)
@@ -1065,8 +1157,8 @@ class Exec(ExecBase):
             yield "fall", None, st
             return
         for v, st1 in self.ev(s.value, st):
-            if isinstance(v, VList) and isinstance(s.target, ast.Name):
-                pass
+            if isinstance(s.target, ast.Name):
+                v = self.retype_empty(v, s.target.id, s.annotation, st1)
             yield "fall", None, self.assign_target(s.target, v, st1)
 
     def st_AugAssign(self, s: ast.AugAssign, st: State) -> Iterator[Out]:
@@ -1157,10 +1249,12 @@ class Exec(ExecBase):
             key, el = self._elem_arr(st, base.elem)
             return st.hset(key, z3.Store(el, base.ref, z3.Store(z3.Select(el, base.ref), i, to_term(v, base.elem))))
         if isinstance(base, VDict):
-            nd = VDict(base.key, base.val, z3.Store(base.term, to_term(idx, base.key), to_term(v, base.val)),
-                       z3.Store(base.dom, to_term(idx, base.key), z3.BoolVal(True)))
-            # value semantics: rebind the variable / write back the container
-            return self.assign_target(self._as_store(base_node), nd, st)
+            if getattr(base, "untyped", False):
+                base.key = getattr(idx, "ty", base.key) if not isinstance(idx, VRef) else T.Ref(self.ct.root(idx.cls))
+                base.val = getattr(v, "ty", base.val)
+                base.ty = type(base.ty)(base.key, base.val)
+                base.untyped = False
+            return self.dict_write(base, self.narrow(idx, st), v, st)
         raise Unsupported(f"item assignment on {base!r}")
 
     def _as_store(self, t: ast.AST) -> ast.AST:
@@ -1196,6 +1290,18 @@ class OldView:
 
     def list_len(self, l: VList) -> VInt:
         return self.ex.list_len(l, self.st)
+
+    def dget(self, d: Any, k: Any) -> V:
+        """d[k] in this state (d a dict value, or an attribute path result); no presence check"""
+        v, _ = self.ex.dict_read(d, k, self.st)
+        return v
+
+    def dhas(self, d: Any, k: Any) -> VBool:
+        return self.ex.contains(d, k, self.st)
+
+    def heap(self, key: str) -> Any:
+        """the raw array of a heap component in this state (None if never touched)"""
+        return self.st.heap.get(key)
 
     def list_get(self, l: VList, i: Any) -> V:
         return self.ex.list_get(l, i, self.st)
